@@ -161,7 +161,11 @@ def _install(model, subscribe, published):
 
     def construct(m):
         sim = m.simulator
-        m.prod = {k: EventProducer() for k in "ctwp"}
+        # the producers are queue-like components of the model: containers that are empty (falsy) right now
+        class QueueLike(EventProducer):
+            def __len__(self):
+                return 0
+        m.prod = {k: QueueLike() for k in "ctwp"}
         if getattr(model, "one_shot_listeners", False):
             # other parts of the model listen to the simulator too: one-shot listeners of the warm-up and of the
             # replication end, subscribed BEFORE the statistics, that unsubscribe themselves when notified
@@ -185,17 +189,16 @@ def _install(model, subscribe, published):
         }
         # a second statistic of each kind with the SAME descriptive name under another key (e.g. "waiting time" of
         # two servers), fed the same observations: it reports what the first one reports
+        # (they are wired through the constructor arguments instead of listen_to)
         m.twins = {
-            "c": SimCounter("cnt-b", "counter", sim),
-            "t": SimTally("tal-b", "tally", sim),
-            "w": SimWeightedTally("wt-b", "weighted", sim),
-            "p": SimPersistent("per-b", "persistent", sim),
+            "c": SimCounter("cnt-b", "counter", sim, producer=m.prod["c"], event_type=StatEvents.DATA_EVENT),
+            "t": SimTally("tal-b", "tally", sim, producer=m.prod["t"], event_type=_custom_type()),
+            "w": SimWeightedTally("wt-b", "weighted", sim, producer=m.prod["w"],
+                                  event_type=StatEvents.WEIGHT_DATA_EVENT),
+            "p": SimPersistent("per-b", "persistent", sim, producer=m.prod["p"],
+                               event_type=StatEvents.TIMESTAMP_DATA_EVENT),
         }
-        m.twins["c"].listen_to(m.prod["c"])
         m.twins["c"].listen_to(m.prod["c"], _custom_type())
-        m.twins["t"].listen_to(m.prod["t"], _custom_type())
-        m.twins["w"].listen_to(m.prod["w"])
-        m.twins["p"].listen_to(m.prod["p"])
         m.stats["c"].listen_to(m.prod["c"])
         m.stats["c"].listen_to(m.prod["c"], _custom_type())       # the counter listens to TWO event types
         m.obs_c_n = 0
